@@ -84,6 +84,31 @@ pub fn flatten(s: &Value) -> BTreeSet<(String, Vec<String>, String)> {
     out
 }
 
+/// Names whose navigation answers are known to depend on registration order (recorded findings
+/// KF-C08-first-registered-pick / KF-C01-import-first-registered): imported by some conftest (in the
+/// implementation's sense) while having >=2 definitions, or defined by >=2 plugin / >=2 third-party files.
+pub fn order_sensitive_names(m: &Model) -> BTreeSet<String> {
+    let ws = &m.ws;
+    let mut s_pick: BTreeSet<String> = BTreeSet::new();
+    for (fi, f) in ws.files.iter().enumerate() {
+        if f.loc.is_conftest() {
+            for n in impl_imported_names(m, fi, &mut BTreeSet::new()) {
+                if m.count_defs(&n) >= 2 {
+                    s_pick.insert(n);
+                }
+            }
+        }
+    }
+    for n in m.all_names() {
+        let plug: usize = ws.files.iter().enumerate().filter(|(_, f)| f.loc.is_plugin()).map(|(i, _)| m.all_defs_of(i, &n).len()).sum();
+        let tp: usize = ws.files.iter().enumerate().filter(|(_, f)| f.loc.is_third_party()).map(|(i, _)| m.all_defs_of(i, &n).len()).sum();
+        if plug >= 2 || tp >= 2 {
+            s_pick.insert(n);
+        }
+    }
+    s_pick
+}
+
 pub fn snap_opts() -> SnapOpts {
     SnapOpts { root: MEM_ROOT.to_string(), raw_maps: false, cycles: 2, undeclared_files: Some(vec![]), ..SnapOpts::default() }
 }
@@ -98,24 +123,7 @@ pub fn check_case(c: &Case, info: &mut CaseInfo) -> Outcome {
     if m.all_names().iter().any(|n| m.count_defs(n) >= 2) {
         info.nontrivial = true;
     }
-    // names whose answers are known to depend on registration order
-    let mut s_pick: BTreeSet<String> = BTreeSet::new();
-    for (fi, f) in ws.files.iter().enumerate() {
-        if f.loc.is_conftest() {
-            for n in impl_imported_names(&m, fi, &mut BTreeSet::new()) {
-                if m.count_defs(&n) >= 2 {
-                    s_pick.insert(n);
-                }
-            }
-        }
-    }
-    for n in m.all_names() {
-        let plug: usize = ws.files.iter().enumerate().filter(|(_, f)| f.loc.is_plugin()).map(|(i, _)| m.all_defs_of(i, &n).len()).sum();
-        let tp: usize = ws.files.iter().enumerate().filter(|(_, f)| f.loc.is_third_party()).map(|(i, _)| m.all_defs_of(i, &n).len()).sum();
-        if plug >= 2 || tp >= 2 {
-            s_pick.insert(n);
-        }
-    }
+    let s_pick = order_sensitive_names(&m);
     let s_diag: BTreeSet<String> = m.all_names().into_iter().filter(|n| m.count_defs(n) >= 2).collect();
     let mut known: BTreeSet<String> = BTreeSet::new();
     let mut detail = None;
